@@ -340,6 +340,8 @@ def check_case(case, rec):
             classes.add("clock_at_end_of_second")
         if case.get("saver") and case["saver"].get("ext", ".wav") != ".wav":
             classes.add("saver_name_without_wav_extension")
+        if case.get("saver") and case["saver"].get("fmt") and case["saver"].get("ext", ".wav").lower() in ("", "." + case["saver"]["fmt"].lower()):
+            classes.add("saver_explicit_export_format")
         if case.get("saver") and len(run.data) // (run.src.sw * run.src.ch) > 65536:
             classes.add("saver_more_than_65536_frames")
         if "command" in case["observers"]:
@@ -472,6 +474,10 @@ def strategy(draw, maxwin, free=False):
     c["src_kind"] = draw(st.sampled_from(["harness", "harness", "harness", "wav_lazy", "raw_lazy"]))
     if c["saver"]:
         c["saver"]["ext"] = draw(st.sampled_from([".wav", ".wav", "", ".raw", ".WAV", ".Wav", ".Raw"]))
+        if draw(rarely(4)):
+            e_ = c["saver"]["ext"].lower()
+            c["saver"]["fmt"] = draw(st.sampled_from(["wav", "WAV", "Wav", "raw", "RAW"] if e_ == "" else
+                                                     (["wav", "WAV", "Wav"] if e_ == ".wav" else ["raw", "RAW", "Raw"])))
     c["joiner_ext"] = draw(st.sampled_from([".wav", ".wav", "", ".raw", ".WAV", ".Wav", ".RAW"]))
     c["twin"] = draw(rarely(8))
     c["relative"] = draw(rarely(6))
